@@ -309,7 +309,7 @@ impl<'a> RPairLookup<'a> {
             }
             match s {
                 RSub::F1 { t, cov } => {
-                    let Some(ci) = cov.get(gid1) else { continue };
+                    let Some(ci) = cov_get(cov, g1, it) else { continue };
                     let ps = t
                         .pair_sets()
                         .get(ci as usize)
@@ -333,7 +333,7 @@ impl<'a> RPairLookup<'a> {
                     });
                 }
                 RSub::F2 { t, cov, cd1, cd2, rows } => {
-                    if cov.get(gid1).is_none() {
+                    if cov_get(cov, g1, it).is_none() {
                         continue;
                     }
                     let k1 = cd1.get(gid1);
@@ -524,7 +524,7 @@ impl<'a> RMarkLookup<'a> {
         out.clear();
         out.resize(bases.len(), None);
         for (si, s) in self.subs.iter().enumerate() {
-            let Some(mi) = s.mcov.get(GlyphId16::new(mark)) else { continue };
+            let Some(mi) = cov_get(&s.mcov, mark, it) else { continue };
             let Some(mrec) = s.mark_array.mark_records().get(mi as usize) else {
                 return Err(format!("subtable {si}: no mark record {mi} for covered mark {mark}"));
             };
@@ -542,7 +542,7 @@ impl<'a> RMarkLookup<'a> {
                 if out[i].is_some() {
                     continue;
                 }
-                let Some(bi) = s.bcov.get(GlyphId16::new(*b)) else { continue };
+                let Some(bi) = cov_get(&s.bcov, *b, it) else { continue };
                 let rec = records
                     .get(bi as usize)
                     .map_err(|e| format!("subtable {si}: base record {bi} for covered base {b}: {e}"))?;
